@@ -74,6 +74,18 @@ def parseIndi (s : String) : Option (Option Indi) :=
     pure (some (RawIndi.toIndi ⟨id, names, births, baptisms, deaths, burials⟩))
   | _ => none
 
+/-- the raw records of a request token (individuals separated by `;`, `|`, `&`): does the selection
+    of an estimated date rest on an exact tie of `Years()` somewhere? -/
+def rawDateTies (tok : String) : Bool :=
+  let parts := (tok.splitOn "|").flatMap fun a => (a.splitOn ";").flatMap fun b => b.splitOn "&"
+  parts.any fun t =>
+    match t.splitOn ":" with
+    | [id, names, births, baptisms, deaths, burials] =>
+      match id.toNat?, parseNames names, parseStrs births, parseStrs baptisms, parseStrs deaths, parseStrs burials with
+      | some id, some names, some b, some p, some d, some u => RawIndi.dateTie ⟨id, names, b, p, d, u⟩
+      | _, _, _, _, _, _ => false
+    | _ => false
+
 def parseIndis (s : String) : Option (List Indi) :=
   if s == "_" then some [] else
   (s.splitOn ";").mapM fun t => do
@@ -189,7 +201,7 @@ def handleSimilarity (cmd : String) (rest : List String) : Option String :=
       | some x, some y, some o =>
         if o.maxYears == 0 then "nan" else
         let t := match x, y with | some x, some y => tightNames x y o | _, _ => false
-        s!"{showRat (individualSimilarity x y o)} {b2s t}"
+        s!"{showRat (individualSimilarity x y o)} {b2s (t || rest.any rawDateTies)}"
       | _, _, _ => "bad-op"
     | _ => some "bad-op"
   | "sim-list" =>
@@ -197,7 +209,7 @@ def handleSimilarity (cmd : String) (rest : List String) : Option String :=
     | [xs, ys, o] => some <| match parseIndis xs, parseIndis ys, parseOpts o with
       | some xs, some ys, some o =>
         if o.maxYears == 0 then "nan" else
-        s!"{showRat (listSimilarity xs ys o)} {b2s (tightList xs ys o)}"
+        s!"{showRat (listSimilarity xs ys o)} {b2s (tightList xs ys o || rest.any rawDateTies)}"
       | _, _, _ => "bad-op"
     | _ => some "bad-op"
   | "sim-fam" =>
@@ -205,7 +217,7 @@ def handleSimilarity (cmd : String) (rest : List String) : Option String :=
     | [f, g, o] => some <| match parseFam f, parseFam g, parseOpts o with
       | some f, some g, some o =>
         if o.maxYears == 0 then "nan" else
-        s!"{showRat (familySimilarity f g o)} {b2s (tightFam f g o)}"
+        s!"{showRat (familySimilarity f g o)} {b2s (tightFam f g o || rest.any rawDateTies)}"
       | _, _, _ => "bad-op"
     | _ => some "bad-op"
   | "sim-surr" =>
@@ -214,7 +226,7 @@ def handleSimilarity (cmd : String) (rest : List String) : Option String :=
       | some x, some y, some o =>
         if o.maxYears == 0 then "nan" else
         let s := surroundingSimilarity x y o (force == "1")
-        s!"{showRat s.parents} {showRat s.individual} {showRat s.spouses} {showRat s.children} {showRat (weightedSimilarity s)} {b2s (tightSurround x y o)}"
+        s!"{showRat s.parents} {showRat s.individual} {showRat s.spouses} {showRat s.children} {showRat (weightedSimilarity s)} {b2s (tightSurround x y o || rest.any rawDateTies)}"
       | _, _, _ => "bad-op"
     | _ => some "bad-op"
   | _ => none
